@@ -15,10 +15,10 @@ import (
 // Merge with the observation before it.
 
 type longJob struct {
-	Mode  int `json:"mode"`
-	RW    int `json:"rw"`
-	Shard int `json:"shard"`
-	Of    int `json:"of"`
+	Mode  int  `json:"mode"`
+	RW    int  `json:"rw"`
+	Shard int  `json:"shard"`
+	Of    int  `json:"of"`
 	Big   bool `json:"big"`
 }
 
